@@ -637,13 +637,25 @@ fn run_sched_child(kind: usize, tuple: &[usize], bound: usize, gran: u8, wall: u
 fn cross_engine_part(rep: &Report) {
     // the five voice kinds plus two that differ from kinds 0 and 2 only in sampling rate and spectral order (same
     // log-F0 values frame by frame, different everything that is derived from rate or order): kinds 100 and 102
-    let kinds = [0usize, 1, 2, 3, 6, 100, 102];
+    // ... and kinds 201 / 203: the LSP kinds 1 and 3 with spectral orders 9 and 2 (larger and smaller than theirs)
+    // ... and kind 300: kind 0 at -6200 dB, where every sample is a subnormal number (anything that changes how the
+    // thread treats subnormals between two renderings shows there)
+    let kinds = [0usize, 1, 2, 3, 6, 100, 102, 201, 203, 300];
     let utts = utterances();
     let u = &utts[1];
     let engines: Vec<Engine> = kinds
         .iter()
         .map(|k| {
-            if *k >= 100 {
+            if *k == 300 {
+                let mut e = engine_kind(0);
+                e.condition.set_volume(-6200.0);
+                e
+            } else if *k >= 200 {
+                let cfg = GenCfg { order: if *k == 201 { 9 } else { 2 }, ..voice_cfg(*k - 200) };
+                let mut e = engine_from_bytes(&cfg.bytes()).expect("generated voice");
+                e.condition.set_beta(0.3);
+                e
+            } else if *k >= 100 {
                 let cfg = GenCfg { rate: if *k == 100 { 48000 } else { 8000 }, order: if *k == 100 { 6 } else { 5 }, ..voice_cfg(*k - 100) };
                 let mut e = engine_from_bytes(&cfg.bytes()).expect("generated voice");
                 e.condition.set_beta(0.3);
@@ -655,8 +667,13 @@ fn cross_engine_part(rep: &Report) {
         .collect();
     let solo: Vec<Result<Vec<f64>, String>> = engines.iter().map(|e| synth(e, u)).collect();
     let mut n = 0u64;
-    for (ai, a) in engines.iter().enumerate() {
-        for (bi, b) in engines.iter().enumerate() {
+    // pairs whose second engine is the subnormal one come first: they are the ones sensitive to per-thread floating-
+    // point state, and an earlier pair must not have changed that state for good before they run
+    let mut order: Vec<(usize, usize)> = (0..engines.len()).flat_map(|a| (0..engines.len()).map(move |b| (a, b))).collect();
+    order.sort_by_key(|(a, b)| (kinds[*b] != 300, (a + b) % 2 == 0, *a, *b));
+    for (ai, bi) in order {
+        {
+            let (a, b) = (&engines[ai], &engines[bi]);
             let (Ok(sa), Ok(sb)) = (&solo[ai], &solo[bi]) else { continue };
             rep.eval(1);
             n += 1;
@@ -664,16 +681,23 @@ fn cross_engine_part(rep: &Report) {
                 let mut ga = a.generator(&u[..]).map_err(|e| e.to_string())?;
                 let mut gb = b.generator(&u[..]).map_err(|e| e.to_string())?;
                 let (mut oa, mut ob) = (Vec::new(), Vec::new());
-                loop {
-                    let mut buf = vec![0.0; ga.fperiod()];
-                    let na = ga.generate_step(&mut buf);
-                    oa.extend_from_slice(&buf[..na]);
-                    let mut buf = vec![0.0; gb.fperiod()];
-                    let nb = gb.generate_step(&mut buf);
-                    ob.extend_from_slice(&buf[..nb]);
-                    if na == 0 && nb == 0 {
-                        break;
+                if (ai + bi) % 2 == 0 {
+                    loop {
+                        let mut buf = vec![0.0; ga.fperiod()];
+                        let na = ga.generate_step(&mut buf);
+                        oa.extend_from_slice(&buf[..na]);
+                        let mut buf = vec![0.0; gb.fperiod()];
+                        let nb = gb.generate_step(&mut buf);
+                        ob.extend_from_slice(&buf[..nb]);
+                        if na == 0 && nb == 0 {
+                            break;
+                        }
                     }
+                } else {
+                    // both created, the first one run to its end and dropped while the second has not started yet
+                    // (lifetimes that overlap without nesting)
+                    oa = ga.generate_all();
+                    ob = gb.generate_all();
                 }
                 Ok((oa, ob))
             });
